@@ -16,9 +16,12 @@
 
    where [wf_client] is the discipline checker of LifeSpec.v, which never looks at the heap
    (ghost state: references the client holds + parent each window is attached to).
-   It is proved (a) in exactly this form for EVENT-FREE histories (the theorems named _partial), and
-   (b) for histories WITH key and mouse events -- press, drag, release, wheel: the whole drag state machine with
-   its directly delivered DRAG_OUTSIDE / DRAG_STOP -- whose handlers make any calls at any depth
+   It is proved (a) in exactly this form for histories of calls that DISPATCH NOTHING (the theorems named _partial:
+   new, ref, unref, close, the restack requests, show, hide, expose, set_pen, scrollrect, bind, unbind, ...), and
+   (b) for histories WITH dispatch: key and mouse events -- press, drag, release, wheel: the whole drag state machine
+   with its directly delivered DRAG_OUTSIDE / DRAG_STOP --, flush (EXPOSE handlers), take_focus (FOCUS handlers, also
+   those of parents with focus_child_notify), set_geometry / reposition / the terminal's resize (GEOMCHANGE
+   handlers), whose handlers make any calls at any depth
    (C08_no_fault_events, C08_events_completed), with the client's side stated by the
    discipline of LifeSpecEv.v: the same rules, but the destruction of a window takes effect when it
    happens (a window released inside its own handler lives until the dispatch frame lets go), which the
@@ -38,7 +41,7 @@ Local Open Scope Z_scope.
    name children; every allocated window is referenced; the queue is a finite chain of all request
    cells, each naming a live window attached (through live windows) to the root, and its parent *)
 
-(* every call of an event-free history keeps the invariant and does not fault *)
+(* every call that dispatches nothing keeps the invariant and does not fault *)
 Theorem C08_step_partial : forall fuel o h,
   hinv [] h -> event_free_op o = true -> op_pre h o ->
   match run_op fixed fuel o h with
@@ -118,7 +121,9 @@ Print Assumptions C08_copy_bounded.
    first with every framed window's parent framed further out -- so that the destruction of a window never consumes a
    reference a frame holds.  Every dispatch function keeps it (S_all_holds: run_op, run_ops, the handler loops,
    _handle_key, _handle_mouse, their loops over a copy of the children, on_term_mouse with the drag state machine and
-   _handle_mouse_at), or else the trace has left the discipline. *)
+   _handle_mouse_at; run_events for EXPOSE / FOCUS / GEOMCHANGE, _do_expose and its loop over a copy of the children,
+   tickit_window_flush holding the root, _focus_lost, _focus_gained under take_focus holding the ancestors,
+   set_geometry holding the ancestors, reposition, on_term_resize), or else the trace has left the discipline. *)
 Theorem C08_dispatch_invariant : forall f, S_all f.
 Proof. exact S_all_holds. Qed.
 Print Assumptions C08_dispatch_invariant.
@@ -144,6 +149,12 @@ Theorem C08_events_drag_nonvacuous : exists h,
   (10 <= length (filter (fun o => match o with OFrameRef _ => true | _ => false end) (tr h)))%nat.
 Proof. exact drag_nonvacuous. Qed.
 Print Assumptions C08_events_drag_nonvacuous.
+
+Theorem C08_events_efg_nonvacuous : exists h,
+  run_script fixed 80 efg_demo = VOk h /\ wf_trace (tr h) = true /\ heap_empty h = true /\
+  (12 <= length (filter (fun o => match o with OFrameRef _ => true | _ => false end) (tr h)))%nat.
+Proof. exact efg_nonvacuous. Qed.
+Print Assumptions C08_events_efg_nonvacuous.
 
 Theorem C08_events_nonvacuous : exists h,
   run_script fixed 80 ev_demo = VOk h /\ wf_trace (tr h) = true /\ heap_empty h = true /\
@@ -307,6 +318,58 @@ Theorem C08_no_fault_refuted_sibling : exists l,
 Proof. exists wit_sibling. exact pinned_sibling. Qed.
 Print Assumptions C08_no_fault_refuted_sibling.
 
+(* ... and in the other event kinds (C08-7, C08-9, C08-12, C08-14, C08-15, C08-16): an expose / focus / geomchange
+   handler that closes and releases its own window; a parent told of the focus change that destroys the child; an
+   expose handler that releases the root during the flush; reposition and the terminal's resize looking at a window
+   its geomchange handler released; the window losing the focus closing the window that takes it (abort) *)
+Theorem C08_no_fault_refuted_expose_handler : exists l,
+  outcome (run_script pinned fuel40 l) = (Some (UAF, 3%nat), false, false, true).
+Proof. exists wit_expose_self. exact pinned_expose_self. Qed.
+Print Assumptions C08_no_fault_refuted_expose_handler.
+
+Theorem C08_no_fault_refuted_focus_handler : exists l,
+  outcome (run_script pinned fuel40 l) = (Some (UAF, 2%nat), false, false, true).
+Proof. exists wit_focus_self. exact pinned_focus_self. Qed.
+Print Assumptions C08_no_fault_refuted_focus_handler.
+
+Theorem C08_no_fault_refuted_geom_handler : exists l,
+  outcome (run_script pinned fuel40 l) = (Some (UAF, 3%nat), false, false, true).
+Proof. exists wit_geom_self. exact pinned_geom_self. Qed.
+Print Assumptions C08_no_fault_refuted_geom_handler.
+
+Theorem C08_no_fault_refuted_focus_notify : exists l,
+  outcome (run_script pinned fuel40 l) = (Some (UAF, 3%nat), false, false, true).
+Proof. exists wit_focus_notify. exact pinned_focus_notify. Qed.
+Print Assumptions C08_no_fault_refuted_focus_notify.
+
+Theorem C08_no_fault_refuted_flush_root : exists l,
+  outcome (run_script pinned fuel40 l) = (Some (UAF, 2%nat), false, false, true).
+Proof. exists wit_flush_root. exact pinned_flush_root. Qed.
+Print Assumptions C08_no_fault_refuted_flush_root.
+
+Theorem C08_no_fault_refuted_reposition : exists l,
+  outcome (run_script pinned fuel40 l) = (Some (UAF, 2%nat), false, false, true).
+Proof. exists wit_move. exact pinned_move. Qed.
+Print Assumptions C08_no_fault_refuted_reposition.
+
+Theorem C08_no_fault_refuted_resize : exists l,
+  outcome (run_script pinned fuel40 l) = (Some (UAF, 1%nat), false, false, true).
+Proof. exists wit_resize. exact pinned_resize. Qed.
+Print Assumptions C08_no_fault_refuted_resize.
+
+Theorem C08_no_fault_refuted_focus_close : exists l,
+  outcome (run_script pinned fuel40 l) = (Some (Abort, 4%nat), false, false, true).
+Proof. exists wit_focus_close. exact pinned_focus_close. Qed.
+Print Assumptions C08_no_fault_refuted_focus_close.
+
+(* the same eight histories on the repaired code: no fault, nothing left *)
+Theorem C08_handler_histories_repaired :
+  map (fun l => outcome (run_script fixed fuel40 l))
+      [wit_expose_self; wit_focus_self; wit_geom_self; wit_focus_notify; wit_flush_root; wit_move; wit_resize; wit_focus_close]
+  = repeat (None, true, false, true) 8.
+Proof. exact fixed_handlers_efg. Qed.
+Print Assumptions C08_handler_histories_repaired.
+
 Theorem C08_uninit_refuted : exists l,
   outcome (run_script pinned fuel40 l) = (None, false, true, true).
 Proof. exists wit_uninit. exact pinned_uninit. Qed.
@@ -317,7 +380,7 @@ Proof. exists (CText [97]), [170]. exact pinned_copy. Qed.
 Print Assumptions C08_copy_bounded_refuted.
 
 (* non-vacuity: a history with windows at three depths, extra references, all four kinds of restack
-   request pending, two flushes, a close, and every reference dropped at the end meets the hypotheses
+   request pending, a scroll, a close, and every reference dropped at the end meets the hypotheses
    of the theorems (and the heap-independent discipline), runs without a fault and leaves nothing *)
 Example C08_nonvacuous :
   client_okb fuel40 wit_nontrivial (heap0 fixed) = true /\ wf_client wit_nontrivial = true /\
